@@ -205,6 +205,22 @@ func runC11(r *rep.R) {
 			}
 		}
 	}
+	// the same socket events over the library's real transport and a loopback
+	// socket (delayed replies really arrive after the read deadline, duplicates
+	// really sit in the kernel's buffer), compared with the in-memory model
+	pairs := [][2]int{{opGetDeviceID, opSystemGUID}, {opSystemGUID, opAuthCaps}, {opPowerReading, opDCMICapsCmd}, {opChassisStatus, opGetDeviceID}}
+	if thorough(r) {
+		pairs = append(pairs, [2]int{opAuthCaps, opGetDeviceID}, [2]int{opDCMISensorInfoCmd, opPowerReading}, [2]int{opSensorReading, opChassisControl}, [2]int{opGetSDR, opSetPriv})
+	}
+	for _, inSess := range []bool{false, true} {
+		for _, p := range pairs {
+			ops := []int{p[0], p[1]}
+			if inSess {
+				ops = append(ops, opClose)
+			}
+			histConform(r, "C11", histCfg{Suite: ref.Suite{Auth: 1, Integ: 1, Conf: 1}, InSession: inSess, Ops: ops, Horizon: 2, Alphabet: "queue"}, 2, &idx)
+		}
+	}
 	r.Bound("deviations", k)
 	r.Bound("pairs", len(alphabet)*(len(alphabet)-1))
 	r.Assume("the socket is FIFO: one read per attempt returns the oldest unread datagram, as a real UDP socket does")
